@@ -192,6 +192,8 @@ int shim_statx(int dirfd, const char *path, int flags, unsigned int mask, void *
         }
         return (int)syscall(SYS_statx, dirfd, path, flags, mask, st);
     }
+    if (!path) /* std's availability probe statx(0, NULL, 0, mask, NULL): not a file access */
+        return (int)syscall(SYS_statx, dirfd, path, flags, mask, st);
     char abs[PATH_MAX];
     resolve_at(dirfd, path, abs);
     if (under_root(abs) && plan_hit("probe-enoent", abs)) {
